@@ -1303,7 +1303,7 @@ def canon(lines):
 
 
 def keep_line(l):
-    return l.startswith(('tp_new', 'tp_pts', 'tp_tz', 'tp_range', 'tp_start'))
+    return l.startswith(('tp_new', 'tp_pts', 'tp_tz'))
 
 
 def extra_stats(cases, impl):
